@@ -1,6 +1,7 @@
 """C14 - migrating merchant_categories.csv to merchants.rules preserves classification."""
 import os
 import tempfile
+from engine.ob import REPO_SRC  # noqa: E402
 from engine.ob import Obligation, post, reset_tally_caches
 
 LEVEL = 'other'
@@ -70,7 +71,7 @@ def preservation(name):
         def _run(self):
             import ast
             import sys
-            sys.path.insert(0, '/repo/src')
+            sys.path.insert(0, REPO_SRC)
             from tally import expr_parser
             from tally.merchant_engine import MerchantParseError
             reset_tally_caches()
@@ -215,7 +216,7 @@ def relative_date():
         def __call__(self, **kw):
             import sys
             from datetime import date
-            sys.path.insert(0, '/repo/src')
+            sys.path.insert(0, REPO_SRC)
             from tally import merchant_utils
             reset_tally_caches()
             CSV_FILES['relative'] = HDR + 'NEWS[date:last30days],News,Media,,\n'
